@@ -5,6 +5,7 @@ package main
 // C01 / C02 / C04: trace-validated copy runs.
 
 import (
+	"bytes"
 	"context"
 	"errors"
 	"fmt"
@@ -12,6 +13,7 @@ import (
 	"math/rand"
 	"os"
 	"path/filepath"
+	"sort"
 	"strings"
 	"sync/atomic"
 	"time"
@@ -21,6 +23,7 @@ import (
 	"oras.land/oras-go/v2/content"
 	"oras.land/oras-go/v2/content/memory"
 	"oras.land/oras-go/v2/errdef"
+	"oras.land/oras-go/v2/registry/remote"
 )
 
 func init() {
@@ -55,7 +58,7 @@ type copyCase struct {
 	cancel  bool
 	label   string
 	mount   bool // the destination is a registry.Mounter and MountFrom names one or two repositories for every blob
-	fsFault int // >0: while this node (id+1) is read from the source, its blob path in an OCI destination becomes a directory
+	fsFault int  // >0: while this node (id+1) is read from the source, its blob path in an OCI destination becomes a directory
 }
 
 func genCopyCase(rng *rand.Rand, mode string, big bool) copyCase {
@@ -575,6 +578,100 @@ func runCopy(mode string, seed int64, tier string, sc *Script) map[string]any {
 			sc.Op(ans, "cp tagged root=%d", root)
 			runs++
 			sc.Count(fmt.Sprintf("rootflow:refpusher=%v,present=%v", refPusher, present))
+		}
+	}
+	// C01 end to end with a real registry client on one or both sides (the in-process
+	// registry of C13): resolveRoot through FetchReference, the root pushed by reference,
+	// blobs through the two-step upload.  Judged on the end state only.
+	if mode == "C01" {
+		reps := 24
+		if tier == "thorough" {
+			reps = 400
+		}
+		for i := 0; i < reps; i++ {
+			u := GenDAG(rng, GenCfg{Blobs: 1 + rng.Intn(4), Manifests: 1 + rng.Intn(5), Subjects: true, Indexes: true, EmptyBlob: rng.Intn(2) == 0})
+			root := -1
+			for k := len(u.Nodes) - 1; k >= 0; k-- {
+				if u.Nodes[k].Kind.IsManifest() {
+					root = k
+					break
+				}
+			}
+			if root < 0 {
+				continue
+			}
+			sc.Case("copy-remote")
+			sc.NonTrivial()
+			srcRemote, dstRemote := i%3 != 1, i%3 != 0
+			reg := newFakeRegistry(regProfile{ReferrersAPI: i%2 == 0, DigestHeaders: true, Ranges: true, Mount: true})
+			mkRepo := func(name string) *remote.Repository {
+				r, err := remote.NewRepository(reg.Host() + "/" + name)
+				if err != nil {
+					panic(err)
+				}
+				r.PlainHTTP = true
+				return r
+			}
+			closure := downClosure(u, []int{root})
+			var src oras.ReadOnlyTarget
+			if srcRemote {
+				r := mkRepo("src/repo")
+				// children first: a registry refuses nothing, but keeps the order honest
+				order := append([]int(nil), closure...)
+				sort.Ints(order)
+				for _, k := range order {
+					n := u.Nodes[k]
+					if n.Kind == KForeign {
+						continue
+					}
+					if err := r.Push(ctx, n.Desc, bytes.NewReader(n.Bytes)); err != nil {
+						panic(fmt.Sprintf("seed push %d: %v", k, err))
+					}
+				}
+				if err := r.Tag(ctx, u.Nodes[root].Desc, "srcref"); err != nil {
+					panic(err)
+				}
+				src = r
+			} else {
+				m := memory.New()
+				pushAll(ctx, m, u, closure)
+				m.Tag(ctx, u.Nodes[root].Desc, "srcref")
+				src = m
+			}
+			var dst oras.Target
+			if dstRemote {
+				dst = mkRepo("dst/repo")
+			} else {
+				dst = memory.New()
+			}
+			dstRef := []string{"", "v2"}[(i/3)%2]
+			got, err := oras.Copy(ctx, src, "srcref", dst, dstRef, oras.CopyOptions{CopyGraphOptions: oras.CopyGraphOptions{Concurrency: 1 + rng.Intn(3)}})
+			res := "ok"
+			if err != nil {
+				res = "err:" + strings.ReplaceAll(err.Error(), " ", "_")
+			} else if u.IDOf(ocispec.Descriptor{MediaType: got.MediaType, Digest: got.Digest, Size: got.Size}) != root {
+				res = "returned-other-root"
+			}
+			var want []int
+			for _, k := range closure {
+				if u.Nodes[k].Kind != KForeign {
+					want = append(want, k)
+				}
+			}
+			sc.Op(res, "cp remote res src=%v dst=%v", srcRemote, dstRemote)
+			sc.Op(presentSet(ctx, dst, u), "cp xpresent all=%s", fmtSet(want))
+			ref := dstRef
+			if ref == "" {
+				ref = "srcref"
+			}
+			tagged := "unresolved"
+			if d, rerr := dst.Resolve(ctx, ref); rerr == nil {
+				tagged = fmt.Sprint(u.IDOf(ocispec.Descriptor{MediaType: d.MediaType, Digest: d.Digest, Size: d.Size}))
+			}
+			sc.Op(tagged, "cp tagged root=%d", root)
+			runs++
+			sc.Count(fmt.Sprintf("copy-remote:src=%v,dst=%v", srcRemote, dstRemote))
+			reg.Close()
 		}
 	}
 	// C04: the same accounting over ExtendedCopyGraph with several roots (a subject with
